@@ -26,6 +26,7 @@ def handle (j : Json) : M Json := do
   | "enhanced_dhar" => opEnhancedDhar j
   | "greedy" => opGreedy j
   | "winnable_hist" => opWinnableHist j
+  | "dhar_batch" => opDharBatch j
   | "elements" => opElements j
   | "rt" => opRt j
   | "bounds" => opBounds j
